@@ -9,4 +9,7 @@ import SpgProofs.Properties.C15
 #print axioms Spg.C15.body_alphabet
 #print axioms Spg.C15.receivers_value
 #print axioms Spg.C15.package_state
+#print axioms Spg.C15.writes_are_local
+#print axioms Spg.C15.no_global_or_captured_writes
+#print axioms Spg.C15.pointer_calls
 #print axioms Spg.C15.pointer_receiver_counterexample
